@@ -10,6 +10,7 @@ translation lengths as `u ≠ 0`; `CharZero K` is needed only where the code div
 -/
 import GT.Lemmas.Isometry
 import GT.Lemmas.FrameCompletion
+import GT.Lemmas.FrameSvd
 import GT.Model.LinAlgQ
 import GT.Properties.C01
 
@@ -18,7 +19,7 @@ open Finset BigOperators Matrix
 set_option linter.unusedSectionVars false
 
 namespace GT.C02
-open GT GT.Iso GT.GS GT.LinAlgQ
+open GT GT.Iso GT.GS GT.Diag GT.LinAlgQ
 
 variable {K : Type*} [Field K] {n m : ℕ}
 
@@ -174,6 +175,61 @@ theorem spacelikeTo_isIso (hr : IsSqrt r) (v : Fin (n + 1) → K) (ker : List (F
   rw [hfr]
   intro hker hnz hlen
   exact findIsometry_isIso' hr t rest ker ht hker hnz hlen
+
+/-! ### the same constructors assuming only the LAPACK contract
+
+The kernel basis is what `svd_kernel` selects from an SVD `(u, s, vh)` of `orth_partial @ minkowski`
+satisfying `SvdContract` (`A = u Σ vh`, `u`, `vh` orthogonal, `s ≥ 0` descending, exact zero
+test).  Orthogonality of the kernel to the frame, general position of the kernel rows and the
+row count are *derived*; the general position of the partial frame is proved for each constructor. -/
+
+/-- `utils.find_isometry(minkowski, x :: rest)`: `x` timelike, rows linearly independent -/
+theorem findIsometry_isIso_svd (hr : IsSqrt r) (x : Fin (n + 1) → K) (rest : List (Fin (n + 1) → K))
+    (hx : mink x x < 0) (hpartial : ∀ u ∈ gs (minkJ n) (x :: rest), u ≠ 0)
+    {k : ℕ} (hk : (indefiniteOrthogonalize r (minkJ n) (x :: rest)).length = k)
+    (tol : K) (s : List K) (U : Matrix (Fin k) (Fin k) K) (Vh : Matrix (Fin (n + 1)) (Fin (n + 1)) K)
+    (hsvd : SvdContract tol (rowsMatrix (indefiniteOrthogonalize r (minkJ n) (x :: rest)) hk * minkJ n) s U Vh) :
+    ∃ h : (findIsometry r (minkJ n) (x :: rest) (svdKernelRows tol k s Vh)).length = n + 1,
+      IsIso (rowsMatrix (findIsometry r (minkJ n) (x :: rest) (svdKernelRows tol k s Vh)) h) :=
+  findIsometry_isIso_of_svd hr x rest hx hpartial hk tol s U Vh hsvd
+
+/-- `Point.origin_to` of any interior point -/
+theorem originTo_isIso_svd (hr : IsSqrt r) (x : Fin (n + 1) → K) (hx : mink x x < 0)
+    {k : ℕ} (hk : (indefiniteOrthogonalize r (minkJ n) [normalizeVec r (minkJ n) x]).length = k)
+    (tol : K) (s : List K) (U : Matrix (Fin k) (Fin k) K) (Vh : Matrix (Fin (n + 1)) (Fin (n + 1)) K)
+    (hsvd : SvdContract tol
+      (rowsMatrix (indefiniteOrthogonalize r (minkJ n) [normalizeVec r (minkJ n) x]) hk * minkJ n) s U Vh) :
+    ∃ h : (originTo r x (svdKernelRows tol k s Vh)).length = n + 1,
+      IsIso (rowsMatrix (originTo r x (svdKernelRows tol k s Vh)) h) :=
+  findIsometry_isIso_of_svd hr _ [] (normalizeVec_timelike hr x hx) (originTo_partial hr x hx) hk tol s U Vh hsvd
+
+/-- `TangentVector.origin_to` of a non-zero tangent vector `v ⟂ x` at an interior point `x` -/
+theorem tangentOriginTo_isIso_svd (hr : IsSqrt r) (x v : Fin (n + 1) → K) (hx : mink x x < 0) (hv : v ≠ 0)
+    (hxv : mink v x = 0)
+    {k : ℕ} (hk : (indefiniteOrthogonalize r (minkJ n)
+      [normalizeVec r (minkJ n) x, normalizeVec r (minkJ n) v]).length = k)
+    (tol : K) (s : List K) (U : Matrix (Fin k) (Fin k) K) (Vh : Matrix (Fin (n + 1)) (Fin (n + 1)) K)
+    (hsvd : SvdContract tol (rowsMatrix (indefiniteOrthogonalize r (minkJ n)
+      [normalizeVec r (minkJ n) x, normalizeVec r (minkJ n) v]) hk * minkJ n) s U Vh) :
+    ∃ h : (tangentOriginTo r x v (svdKernelRows tol k s Vh)).length = n + 1,
+      IsIso (rowsMatrix (tangentOriginTo r x v (svdKernelRows tol k s Vh)) h) :=
+  findIsometry_isIso_of_svd hr _ _ (normalizeVec_timelike hr x hx) (tangentOriginTo_partial hr x v hx hv hxv)
+    hk tol s U Vh hsvd
+
+/-- (repaired) `hyperbolic.spacelike_to` of any spacelike vector -/
+theorem spacelikeTo_isIso_svd (hr : IsSqrt r) (v : Fin (n + 1) → K) (hv : 0 < mink v v)
+    {k : ℕ} (hk : (indefiniteOrthogonalize r (minkJ n) (spacelikeFrame r v)).length = k)
+    (tol : K) (s : List K) (U : Matrix (Fin k) (Fin k) K) (Vh : Matrix (Fin (n + 1)) (Fin (n + 1)) K)
+    (hsvd : SvdContract tol (rowsMatrix (indefiniteOrthogonalize r (minkJ n) (spacelikeFrame r v)) hk * minkJ n) s U Vh) :
+    ∃ h : (spacelikeTo r v (svdKernelRows tol k s Vh)).length = n + 1,
+      IsIso (rowsMatrix (spacelikeTo r v (svdKernelRows tol k s Vh)) h) := by
+  obtain ⟨t, rest, hfr, ht⟩ := spacelikeFrame_timelike hr v hv
+  have hp := spacelikeFrame_partial hr v hv
+  unfold spacelikeTo
+  revert hk hsvd hp
+  rw [hfr]
+  intro hk hsvd hp
+  exact findIsometry_isIso_of_svd hr t rest ht hp hk tol s U Vh hsvd
 
 /-- `TangentVector.isometry_to(other)` = `other.origin_to() @ self.origin_to().inv()`
 (tangent-vector transport): an isometry as soon as the two `origin_to` results are -/
